@@ -38,7 +38,7 @@ Definition Inv (w : world) : Prop :=
       s_exit (sp w) = t_exit (pt w) /\ s_sig (sp w) = t_sig (pt w)) /\
   Forall (fun k => snd k = true) (kills w) /\
   (fd_closes w = if t_fd_open (pt w) then 0%nat else 1%nat) /\
-  (t_closed (pt w) = true -> t_fd_open (pt w) = false) /\
+  (t_closed (pt w) = true -> t_fd_open (pt w) = false /\ t_terminated (pt w) = true) /\
   (s_closed (sp w) = true -> s_fd_valid (sp w) = false /\ t_closed (pt w) = true).
 
 Definition wf_op (o : lop) : Prop :=
@@ -105,9 +105,11 @@ Proof.
   assert (S4 : s_terminated (sp w) = true -> False) by (intros H; destruct (I4 H); congruence).
   pose proof (good_status_decodes _ (I1 Ea)) as [Hx|[Hx Hs]].
   - rewrite Hx. unfold Inv, set_pt, set_ch; cbn. unfold fields_of. rewrite Hx.
-    repeat split; auto; try discriminate; try (intros H; now elim (S4 H)); try (exfalso; apply S4; assumption); try (apply I8; assumption).
+    repeat split; auto; try discriminate; try (intros H; now elim (S4 H)); try (exfalso; apply S4; assumption); try (apply I8; assumption);
+      try (apply I7; assumption).
   - rewrite Hx, Hs. unfold Inv, set_pt, set_ch; cbn. unfold fields_of. rewrite Hx.
-    repeat split; auto; try discriminate; try (intros H; now elim (S4 H)); try (exfalso; apply S4; assumption); try (apply I8; assumption).
+    repeat split; auto; try discriminate; try (intros H; now elim (S4 H)); try (exfalso; apply S4; assumption); try (apply I8; assumption);
+      try (apply I7; assumption).
 Qed.
 
 Lemma copy_fields_inv w : Inv w -> t_terminated (pt w) = true -> Inv (copy_fields w) /\ s_terminated (sp (copy_fields w)) = true.
@@ -341,4 +343,211 @@ Proof.
   destruct (terminate_with isalive w true) as [[[|]| | | |] w']; try contradiction.
   - destruct T as (T1 & _ & T3 & _). destruct (T3 eq_refl) as (A & B & C). auto.
   - destruct T as (_ & _ & _ & T4). specialize (T4 eq_refl). discriminate.
+Qed.
+
+(** ============ close(): ptyprocess.close and pexpect.spawn.close ================================================ *)
+Lemma inv_finish w : Inv w -> dead w -> t_fd_open (pt w) = false ->
+  Inv (set_pt w {| t_terminated := t_terminated (pt w); t_status := t_status (pt w); t_exit := t_exit (pt w);
+                   t_sig := t_sig (pt w); t_closed := true; t_fd_open := false |}).
+Proof.
+  intros (I1 & I2 & I3 & I4 & I5 & I6 & I7 & I8) (D1 & D2 & D3) Hfd. unfold Inv, set_pt; cbn.
+  split; [exact I1|]. split; [exact I2|]. split; [exact I3|]. split; [exact I4|]. split; [exact I5|].
+  split; [now rewrite Hfd in I6|]. split; [intros _; split; [reflexivity | exact D1]|].
+  intros H. destruct (I8 H) as [A _]. split; [exact A | reflexivity].
+Qed.
+
+Lemma inv_release_fd w : Inv w -> t_closed (pt w) = false ->
+  Inv {| ch := ch w; pt := {| t_terminated := t_terminated (pt w); t_status := t_status (pt w); t_exit := t_exit (pt w); t_sig := t_sig (pt w);
+                              t_closed := false; t_fd_open := false |};
+         sp := sp w; kills := kills w; fd_closes := (fd_closes w + (if t_fd_open (pt w) then 1 else 0))%nat |}.
+Proof.
+  intros (I1 & I2 & I3 & I4 & I5 & I6 & I7 & I8) Hc. unfold Inv; cbn.
+  split; [exact I1|]. split; [exact I2|]. split; [exact I3|]. split; [exact I4|]. split; [exact I5|].
+  split; [rewrite I6; destruct (t_fd_open (pt w)); reflexivity|]. split; [discriminate|].
+  intros H. destruct (I8 H) as [_ B]. congruence.
+Qed.
+
+Definition sframe (w w' : world) : Prop := s_closed (sp w') = s_closed (sp w) /\ s_fd_valid (sp w') = s_fd_valid (sp w).
+
+Lemma pty_close_spec w force : Inv w ->
+  match pty_close w force with
+  | (RNone, w') => Inv w' /\ dead w' /\ t_closed (pt w') = true /\ sframe w w' /\ (t_closed (pt w) = true -> w' = w) /\
+                   (fd_closes w' = 1%nat)
+  | (RaisePty n, w') => n = 2%nat /\ Inv w' /\ force = false /\ t_closed (pt w') = false /\ t_fd_open (pt w') = false /\ sframe w w'
+  | _ => False
+  end.
+Proof.
+  intros HI. unfold pty_close. destruct (t_closed (pt w)) eqn:Ec.
+  { pose proof HI as (I1 & I2 & I3 & I4 & I5 & I6 & I7 & I8). destruct (I7 Ec) as [Hfd Ht]. destruct (I2 Ht) as (A & B & _).
+    split; [exact HI|]. split; [repeat split; assumption|]. split; [exact Ec|]. split; [split; reflexivity|]. split; [auto|].
+    now rewrite Hfd in I6. }
+  cbv zeta.
+  pose proof (inv_release_fd w HI Ec) as H1.
+  match type of H1 with Inv ?W => set (w1 := W) in * end.
+  assert (S1 : 1 <= SIGHUP < 127) by (unfold SIGHUP; lia).
+  assert (G1 : alive (ch w1) = false -> good_status (fate (ch w1))) by (destruct H1; assumption).
+  destruct (deliver_spec (ch w1) SIGHUP S1 G1) as (D1 & D2 & D3 & _).
+  pose proof (inv_set_ch w1 (deliver (ch w1) SIGHUP) H1 D1 D2 D3) as H2.
+  set (w2 := set_ch w1 (deliver (ch w1) SIGHUP)) in *.
+  assert (F2 : t_fd_open (pt w2) = false) by reflexivity.
+  assert (C2 : t_closed (pt w2) = false) by reflexivity.
+  assert (SF2 : sframe w w2) by (split; reflexivity).
+  assert (ST2 : s_terminated (sp w2) = s_terminated (sp w)) by reflexivity.
+  assert (K2 : fd_closes w2 = 1%nat).
+  { destruct H2 as (_ & _ & _ & _ & _ & I6 & _). now rewrite F2 in I6. }
+  pose proof (pty_isalive_spec w2 H2) as C.
+  destruct (pty_isalive w2) as [[[|]| | | |] w3]; try contradiction.
+  - destruct C as (-> & Ha & Ht).
+    pose proof (pty_terminate_ok w2 force H2) as T. unfold pty_terminate.
+    destruct (terminate_with pty_isalive w2 force) as [[[|]| | | |] w4]; try contradiction.
+    + destruct T as (T1 & (F1 & F2' & F3 & F4 & F5) & T3 & _). specialize (T3 eq_refl).
+      assert (Fd4 : t_fd_open (pt w4) = false) by congruence.
+      split; [now apply inv_finish|]. split; [exact T3|]. split; [reflexivity|].
+      split; [destruct SF2; split; cbn; congruence|]. split; [congruence|]. cbn. congruence.
+    + destruct T as (T1 & (F1 & F2' & F3 & F4 & F5) & _ & T4). specialize (T4 eq_refl).
+      split; [reflexivity|]. split; [exact T1|]. split; [exact T4|]. split; [congruence|]. split; [congruence|].
+      destruct SF2; split; congruence.
+  - destruct C as (P1 & P2 & P3 & P4 & P5 & P6 & P7 & _).
+    assert (D : dead w3). { pose proof P1 as (_ & J2 & _). destruct (J2 P2) as (A & B & _). repeat split; assumption. }
+    assert (Fd3 : t_fd_open (pt w3) = false) by congruence.
+    split; [now apply inv_finish|]. split; [exact D|]. split; [reflexivity|].
+    split; [destruct SF2; split; cbn; rewrite P3; assumption|]. split; [congruence|]. cbn. congruence.
+Qed.
+
+Lemma inv_fd_invalid w : Inv w ->
+  Inv (set_sp w {| s_terminated := s_terminated (sp w); s_status := s_status (sp w); s_exit := s_exit (sp w); s_sig := s_sig (sp w);
+                   s_closed := s_closed (sp w); s_fd_valid := false |}).
+Proof.
+  intros (I1 & I2 & I3 & I4 & I5 & I6 & I7 & I8). unfold Inv, set_sp; cbn.
+  split; [exact I1|]. split; [exact I2|]. split; [exact I3|]. split; [exact I4|]. split; [exact I5|]. split; [exact I6|]. split; [exact I7|].
+  intros H. destruct (I8 H) as [_ B]. split; [reflexivity | exact B].
+Qed.
+
+Lemma inv_set_closed w : Inv w -> t_closed (pt w) = true ->
+  Inv (set_sp w {| s_terminated := s_terminated (sp w); s_status := s_status (sp w); s_exit := s_exit (sp w); s_sig := s_sig (sp w);
+                   s_closed := true; s_fd_valid := false |}).
+Proof.
+  intros (I1 & I2 & I3 & I4 & I5 & I6 & I7 & I8) Hc. unfold Inv, set_sp; cbn.
+  split; [exact I1|]. split; [exact I2|]. split; [exact I3|]. split; [exact I4|]. split; [exact I5|]. split; [exact I6|]. split; [exact I7|].
+  intros _. split; [reflexivity | exact Hc].
+Qed.
+
+(** the state a successful close() leaves behind *)
+Definition closed_state (w : world) : Prop :=
+  Inv w /\ dead w /\ s_terminated (sp w) = true /\ s_closed (sp w) = true /\ s_fd_valid (sp w) = false /\
+  t_closed (pt w) = true /\ fd_closes w = 1%nat.
+
+Lemma isalive_dead w : t_terminated (pt w) = true -> isalive w = (RBool false, copy_fields w).
+Proof. intros Ht. unfold isalive, pty_isalive. now rewrite Ht. Qed.
+
+Lemma close_spec w force : Inv w ->
+  match close w force with
+  | (RNone, w') => closed_state w' /\ (s_closed (sp w) = true -> kills w' = kills w /\ ch w' = ch w)
+  | (RaisePty n, w') => n = 2%nat /\ Inv w' /\ force = false /\ s_fd_valid (sp w') = false /\ s_closed (sp w') = s_closed (sp w) /\
+                        t_fd_open (pt w') = false
+  | _ => False
+  end.
+Proof.
+  intros HI. unfold close. pose proof (pty_close_spec w force HI) as P.
+  destruct (pty_close w force) as [[| | |n|] w1]; try contradiction.
+  - destruct P as (P1 & P2 & P3 & (P4a & P4b) & P5 & P6).
+    pose proof (inv_fd_invalid w1 P1) as H1.
+    match type of H1 with Inv ?W => set (w2 := W) in * end.
+    pose proof (isalive_spec w2 H1) as A.
+    assert (Ed : isalive w2 = (RBool false, copy_fields w2)) by (apply isalive_dead; destruct P2 as (D & _); exact D).
+    rewrite Ed in A. rewrite Ed. set (w3 := copy_fields w2) in *.
+    assert (Ech : ch w3 = ch w1) by reflexivity.
+    destruct A as (A1 & A2 & A3 & A4 & A5 & A6 & A7 & A8 & A9 & A10 & A11).
+    assert (C3 : t_closed (pt w3) = true) by (rewrite A8; exact P3).
+    split.
+    + unfold closed_state. split; [now apply inv_set_closed|]. cbn.
+      split; [repeat split; assumption|]. split; [exact A3|]. split; [reflexivity|]. split; [reflexivity|].
+      split; [exact C3|]. exact P6.
+    + intros Hs. destruct HI as (_ & _ & _ & _ & _ & _ & _ & I8). destruct (I8 Hs) as [_ Hc]. specialize (P5 Hc). subst w1.
+      cbn. split; reflexivity.
+  - destruct P as (-> & P1 & P2 & P3 & P4 & (P5a & P5b)).
+    split; [reflexivity|]. split; [now apply inv_fd_invalid|]. cbn. repeat split; auto.
+Qed.
+
+(** -- every sequence of operations, close included ------------------------------------------------------------- *)
+Theorem lstep_inv_all w o : Inv w -> wf_op o -> Inv (snd (lstep w o)) /\ fst (lstep w o) <> RaisePty 1.
+Proof.
+  intros HI Hwf. destruct (no_close o) eqn:E; [now apply lstep_inv|].
+  destruct o as [| | | |force|]; try discriminate. cbn [lstep].
+  pose proof (close_spec w force HI) as C. destruct (close w force) as [[| | |n|] w']; try contradiction; cbn [fst snd].
+  - split; [apply C | discriminate].
+  - destruct C as (-> & C & _). split; [exact C | discriminate].
+Qed.
+
+Theorem steps_inv_all ops : forall w, Inv w -> Forall wf_op ops -> Inv (fold_left (fun w o => snd (lstep w o)) ops w).
+Proof.
+  induction ops as [|o ops IH]; intros w HI Hwf; cbn [fold_left]; [exact HI|].
+  inversion Hwf as [|? ? Hwo Hwr]; subst. apply IH; auto. now apply lstep_inv_all.
+Qed.
+
+Theorem kills_only_alive_all ops w : Inv w -> Forall wf_op ops ->
+  Forall (fun k => snd k = true) (kills (fold_left (fun w o => snd (lstep w o)) ops w)).
+Proof. intros HI Hwf. apply (steps_inv_all ops w HI Hwf). Qed.
+
+(** the descriptor is released at most once, whatever is called and however often *)
+Theorem fd_released_at_most_once ops w : Inv w -> Forall wf_op ops ->
+  (fd_closes (fold_left (fun w o => snd (lstep w o)) ops w) <= 1)%nat.
+Proof.
+  intros HI Hwf. destruct (steps_inv_all ops w HI Hwf) as (_ & _ & _ & _ & _ & I6 & _). rewrite I6.
+  destruct (t_fd_open _); lia.
+Qed.
+
+(** close(force=True) leaves the child dead and reaped, the object terminated and closed, the descriptor released once *)
+Theorem close_force w : Inv w ->
+  match close w true with
+  | (RNone, w') => closed_state w'
+  | _ => False
+  end.
+Proof.
+  intros HI. pose proof (close_spec w true HI) as C. destruct (close w true) as [[| | |n|] w']; try contradiction.
+  - apply C.
+  - destruct C as (_ & _ & C & _). discriminate.
+Qed.
+
+(** close(force=False) either succeeds in the same way or raises with the descriptor number invalidated *)
+Theorem close_polite w : Inv w ->
+  match close w false with
+  | (RNone, w') => closed_state w'
+  | (RaisePty n, w') => n = 2%nat /\ Inv w' /\ s_fd_valid (sp w') = false /\ t_fd_open (pt w') = false
+  | _ => False
+  end.
+Proof.
+  intros HI. pose proof (close_spec w false HI) as C. destruct (close w false) as [[| | |n|] w']; try contradiction.
+  - apply C.
+  - destruct C as (C1 & C2 & _ & C4 & _ & C6). auto.
+Qed.
+
+(** close() is idempotent: on a closed object it sends no signal, releases nothing, leaves the child and every attribute alone *)
+Theorem close_idempotent w force : closed_state w ->
+  match close w force with
+  | (RNone, w') => closed_state w' /\ kills w' = kills w /\ ch w' = ch w /\ fd_closes w' = fd_closes w /\
+                   s_status (sp w') = s_status (sp w) /\ s_exit (sp w') = s_exit (sp w) /\ s_sig (sp w') = s_sig (sp w)
+  | _ => False
+  end.
+Proof.
+  intros (HI & (D1 & D2 & D3) & St & Sc & Sf & Tc & Fc).
+  pose proof HI as (_ & _ & _ & I4 & _). destruct (I4 St) as (_ & B1 & B2 & B3).
+  unfold close, pty_close. rewrite Tc. rewrite isalive_dead by exact D1. cbn.
+  split; [|repeat split; auto].
+  pose proof (close_spec w force HI) as C. unfold close, pty_close in C. rewrite Tc in C. rewrite isalive_dead in C by exact D1.
+  cbn in C. apply C.
+Qed.
+
+(** C09 with close: once terminated is set, no operation at all changes the four attributes *)
+Theorem status_stable_all w o : Inv w -> wf_op o -> s_terminated (sp w) = true ->
+  let w' := snd (lstep w o) in
+  s_terminated (sp w') = true /\ s_status (sp w') = s_status (sp w) /\ s_exit (sp w') = s_exit (sp w) /\ s_sig (sp w') = s_sig (sp w).
+Proof.
+  intros HI Hwf Hs. destruct (no_close o) eqn:E; [now apply status_stable|].
+  destruct o as [| | | |force|]; try discriminate. cbn [lstep]. cbv zeta.
+  pose proof HI as (_ & _ & _ & I4 & _). destruct (I4 Hs) as (Ht & B1 & B2 & B3).
+  unfold close, pty_close. destruct (t_closed (pt w)) eqn:Ec.
+  - rewrite isalive_dead by exact Ht. cbn. auto.
+  - cbv zeta. unfold pty_isalive at 1. cbn [set_ch pt t_terminated]. rewrite Ht.
+    rewrite isalive_dead by reflexivity. cbn. auto.
 Qed.
